@@ -480,3 +480,61 @@ example (s : St) (a b c : Term) :
           cases h5 : (5 == k) <;> simp_all <;> omega)
 
 end Pypika.B
+
+namespace Pypika.B
+open Pypika
+
+/-! ## C11 / C12 — the set-operation builder: operands are appended in call order, the base never changes, the last
+`limit` / `offset` wins -/
+
+def SetOp.ops : SetOp → List (Str × Query) | .mk _ ops _ _ _ _ => ops
+def SetOp.base : SetOp → Query | .mk b _ _ _ _ _ => b
+def SetOp.limit : SetOp → Option Nat | .mk _ _ _ l _ _ => l
+def SetOp.offset : SetOp → Option Nat | .mk _ _ _ _ o _ => o
+
+/-- any sequence of union / intersect / … calls adds exactly its operands, in call order, after the existing ones -/
+theorem setop_ops_in_call_order (s : SetOp) (calls : List (Str × Query)) :
+    ∃ s', runS s (calls.map fun c => SCall.op c.1 c.2) = .ok s' ∧ SetOp.ops s' = SetOp.ops s ++ calls ∧
+      SetOp.base s' = SetOp.base s ∧ SetOp.limit s' = SetOp.limit s ∧ SetOp.offset s' = SetOp.offset s := by
+  induction calls generalizing s with
+  | nil => exact ⟨s, rfl, by simp, rfl, rfl, rfl⟩
+  | cons c cs ih =>
+    cases s with
+    | mk base ops obs l o a =>
+      obtain ⟨s', h1, h2, h3, h4, h5⟩ := ih (.mk base (ops ++ [(c.1, c.2)]) obs l o a)
+      refine ⟨s', ?_, ?_, h3, h4, h5⟩
+      · simpa [runS, stepS, bind, Except.bind, pure, Except.pure] using h1
+      · simpa [SetOp.ops, List.append_assoc] using h2
+
+/-- the constructor on a query: the receiver becomes the base, the argument the first operand -/
+theorem mkSetOp_shape (s : St) (name : Str) (other : Query) :
+    SetOp.base (mkSetOp s name other) = s.r.toQ ∧ SetOp.ops (mkSetOp s name other) = [(name, other)] ∧
+      SetOp.limit (mkSetOp s name other) = none ∧ SetOp.offset (mkSetOp s name other) = none := ⟨rfl, rfl, rfl, rfl⟩
+
+theorem setop_limit_last_wins (s : SetOp) (n m : Nat) :
+    (stepS s (.limit n) >>= fun x => stepS x (.limit m)) = stepS s (.limit m) := by
+  cases s; rfl
+
+theorem setop_offset_last_wins (s : SetOp) (n m : Nat) :
+    (stepS s (.offset n) >>= fun x => stepS x (.offset m)) = stepS s (.offset m) := by
+  cases s; rfl
+
+theorem setop_limit_zero_stored (s : SetOp) : ∃ s', stepS s (.limit 0) = .ok s' ∧ SetOp.limit s' = some 0 := by
+  cases s; exact ⟨_, rfl, rfl⟩
+
+/-- pagination and ordering calls never touch the operand list -/
+theorem setop_ops_frame (s s' : SetOp) (c : SCall) (h : stepS s c = .ok s') (hc : ∀ n q, c ≠ .op n q) :
+    SetOp.ops s' = SetOp.ops s ∧ SetOp.base s' = SetOp.base s := by
+  cases s with
+  | mk base ops obs l o a =>
+    cases c with
+    | op n q => exact absurd rfl (hc n q)
+    | limit n => simp [stepS, pure, Except.pure] at h; subst h; exact ⟨rfl, rfl⟩
+    | offset n => simp [stepS, pure, Except.pure] at h; subst h; exact ⟨rfl, rfl⟩
+    | orderby args order =>
+      simp only [stepS] at h
+      split at h
+      · simp [pure, Except.pure] at h; subst h; exact ⟨rfl, rfl⟩
+      · simp at h
+
+end Pypika.B
